@@ -94,6 +94,10 @@ theorem inv_step (s : State) (e : Event) (s' : State) (hinv : Inv s)
     simp only [fixed, stepFixed, stepCommon] at hstep
     split at hstep <;> simp only [Option.some.injEq, reduceCtorEq] at hstep
     subst hstep; exact hinv
+  | intr p =>
+    simp only [fixed, stepFixed, stepCommon] at hstep
+    split at hstep <;> simp only [Option.some.injEq, reduceCtorEq] at hstep
+    subst hstep; exact hinv
 
 /-- the invariant holds after every history the repaired code can produce -/
 theorem inv_reachable (es : List Event) (s : State) (h : fixed.run fixed.init es = some s) : Inv s :=
@@ -219,6 +223,10 @@ theorem invEq_step (s : State) (e : Event) (s' : State) (he : NotKillCS e) (hinv
     simp only [fixed, stepFixed, stepCommon] at hstep
     split at hstep <;> simp only [Option.some.injEq, reduceCtorEq] at hstep
     subst hstep; exact hinv
+  | intr p =>
+    simp only [fixed, stepFixed, stepCommon] at hstep
+    split at hstep <;> simp only [Option.some.injEq, reduceCtorEq] at hstep
+    subst hstep; exact hinv
 
 /-- **No token is lost** (`count + #guards = 1`): along every history in which no process dies
     inside a critical section, once the semaphore exists its count is 1 exactly when nobody is
@@ -281,6 +289,34 @@ theorem orig_two_holders :
 theorem fixed_rejects_witness :
     fixed.accepts [.openSem 0, .exit 0, .unlock 0, .openSem 1, .lock 1, .openSem 2, .lock 2] = false := by
   simp [Sys.accepts, Sys.run, fixed, stepFixed, stepCommon, init]
+
+/-! ### sem_wait interrupted by a signal -/
+
+/-- an interrupted `sem_wait` (-1/EINTR) acquires nothing: the count, and who is inside, are
+    unchanged — so a process that goes on as if it had the lock is not a behaviour of the model -/
+theorem interrupt_acquires_nothing (s s' : State) (p : Nat) (h : fixed.step s (.intr p) = some s') :
+    s' = s := by
+  simp only [fixed, stepFixed, stepCommon] at h
+  split at h <;> simp only [Option.some.injEq, reduceCtorEq] at h
+  exact h.symm
+
+/-- after any history (interruptions included), a process whose last `sem_wait` was interrupted
+    while another process is inside cannot take the lock: `lock` is not enabled -/
+theorem no_entry_after_interrupt (es : List Event) (s : State) (h : fixed.run fixed.init es = some s)
+    (p q : Nat) (hq : holds s q) (hpq : p ≠ q) : fixed.step s (.lock p) = none := by
+  have hc := (count_plus_holders_le_one es s h).2.1 q hq
+  simp only [fixed, stepFixed, stepCommon, hc]
+  split <;> simp_all
+
+/-- "EINTR treated as an acquisition" is rejected: B, interrupted while A is inside, enters -/
+theorem fixed_rejects_eintr_as_success :
+    fixed.accepts [.openSem 0, .lock 0, .openSem 1, .intr 1, .lock 1] = false := by
+  simp [Sys.accepts, Sys.run, fixed, stepFixed, stepCommon, init, upd_apply]
+
+/-- the legitimate continuations are accepted: B raises (takes no step) or retries once A left -/
+example : fixed.accepts [.openSem 0, .lock 0, .openSem 1, .intr 1, .intr 1, .unlock 0, .lock 1,
+    .unlock 1, .exit 0, .exit 1, .value (some 1)] = true := by
+  simp [Sys.accepts, Sys.run, fixed, stepFixed, stepCommon, init, upd_apply]
 
 /-! ### non-vacuity: a history with three processes taking the lock in turn is accepted and
     ends with the count at 1 -/
